@@ -247,6 +247,53 @@ def evaluate_periodic(pp, xs, ys, kxx, aavatsmark):
     return bad
 
 
+def evaluate_periodic_simplex(pp, left_ys, right_ys, kseed):
+    """Triangle grid on [0,3]^2, periodic in x; the node numbering on the two periodic sides (left_ys / right_ys = the y-coordinates in
+    node order) decides the signs of the periodic faces in cell_faces.  Pure Neumann on top / bottom, scalar K per cell (1, or seeded).
+    Clauses: the two faces of a pair see the same flux (seen from their own cells with opposite signs), a constant pressure gives no
+    flux, div*flux is symmetric."""
+    import random
+
+    pts = [[0.0, float(y)] for y in left_ys] + [[3.0, float(y)] for y in right_ys]
+    pts += [[1.0, 0.0], [2.0, 0.0], [1.0, 3.0], [2.0, 3.0]]
+    pts += [[0.9, 0.8], [2.1, 0.7], [1.4, 1.5], [0.8, 2.2], [2.2, 2.3], [1.6, 0.4], [1.5, 2.6]]
+    g = pp.TriangleGrid(np.array(pts).T)
+    g.compute_geometry()
+    left = np.where(g.face_centers[0] < 1e-10)[0]
+    right = np.where(g.face_centers[0] > 3 - 1e-10)[0]
+    left = left[np.argsort(g.face_centers[1, left])]
+    right = right[np.argsort(g.face_centers[1, right])]
+    sl = np.asarray(g.cell_faces[left].sum(axis=1)).ravel()
+    sr = np.asarray(g.cell_faces[right].sum(axis=1)).ravel()
+    if kseed is None:
+        k = np.ones(g.num_cells)
+    else:
+        r = random.Random(kseed)
+        k = np.array([r.choice([0.5, 1.0, 2.0, 5.0]) for _ in range(g.num_cells)])
+    try:
+        with warnings.catch_warnings():
+            warnings.simplefilter("ignore")
+            g.set_periodic_map(np.vstack((left, right)))
+            data = pp.initialize_data({}, KW, {"second_order_tensor": pp.SecondOrderTensor(k), "bc": pp.BoundaryCondition(g)})
+            pp.Tpfa(KW).discretize(g, data)
+    except Exception as e:
+        return [(O_RUN, f"periodic triangle grid: {type(e).__name__}: {e}")]
+    flux = data[pp.DISCRETIZATION_MATRICES][KW]["flux"].toarray()
+    tmax = max(np.abs(flux).max(), 1e-300)
+    sig = f"signs of the periodic faces: left {sl.astype(int).tolist()} right {sr.astype(int).tolist()}"
+    bad = []
+    e_pair = np.abs(sl[:, None] * flux[left] + sr[:, None] * flux[right]).max()
+    if e_pair > 1e-12 * tmax:
+        bad.append((O_PER, f"{sig}: max |s_l flux[left] + s_r flux[right]| = {e_pair:.3e}"))
+    e_const = np.abs(flux @ np.ones(g.num_cells)).max()
+    if e_const > 1e-12 * tmax:
+        bad.append((O_CONST, f"{sig}: max |flux @ 1| = {e_const:.3e} (no Dirichlet face)"))
+    A = g.cell_faces.T.toarray() @ flux
+    if np.abs(A - A.T).max() > 1e-12 * tmax:
+        bad.append((O_SYM, f"{sig}: max |A - A^T| = {np.abs(A - A.T).max():.3e}"))
+    return bad
+
+
 def evaluate(pp, spec, K, layout, korth_grid, aavatsmark=False):
     g = build_grid(pp, spec)
     dim, nf, nc = g.dim, g.num_faces, g.num_cells
@@ -420,13 +467,25 @@ def run(rep):
                     for ob, detail in evaluate_periodic(pp, xs, ys, kxx, aav):
                         rep.violation(ob, f"2d periodic tensor grid{' Aavatsmark_transmissibilities' if aav else ''}", detail=detail, confirmed=True,
                                       inputs={"periodic": True, "xs": xs, "ys": ys, "kxx": kxx, "aavatsmark": aav})
+        # periodic simplex grids: the numbering of the boundary nodes decides the signs with which the periodic faces enter cell_faces
+        # (uniform on a side, equal or opposite on the two sides, or mixed on one side)
+        for left_ys, right_ys in (([0, 1, 2, 3], [0, 1, 2, 3]), ([0, 1, 2, 3], [3, 2, 1, 0]), ([0, 2, 1, 3], [0, 1, 2, 3]), ([0, 1, 2, 3], [0, 2, 1, 3]),
+                                  ([3, 1, 0, 2], [2, 0, 3, 1])):
+            for rep_no in range(1 if quick else 3):
+                kseed = None if rep_no == 0 else rng.randrange(10**6)
+                sw.case(("periodic simplex", tuple(left_ys), tuple(right_ys), kseed), nontrivial=True, sample={"left": left_ys, "right": right_ys})
+                for ob, detail in evaluate_periodic_simplex(pp, left_ys, right_ys, kseed):
+                    rep.violation(ob, "2d periodic triangle grid", detail=detail, confirmed=True,
+                                  inputs={"periodic_simplex": True, "left_ys": left_ys, "right_ys": right_ys, "kseed": kseed})
 
 
 def replay(data):
     import porepy as pp
 
     inp = data["inputs"]
-    if inp.get("periodic"):
+    if inp.get("periodic_simplex"):
+        bad = evaluate_periodic_simplex(pp, inp["left_ys"], inp["right_ys"], inp["kseed"])
+    elif inp.get("periodic"):
         bad = evaluate_periodic(pp, inp["xs"], inp["ys"], inp["kxx"], inp["aavatsmark"])
     else:
         bad = evaluate(pp, inp["grid"], np.array(inp["K"]), inp["layout"], inp["korth"], aavatsmark=bool(inp.get("aavatsmark")))
